@@ -358,3 +358,48 @@ def Dict.sortedOrdsToTerm {V} (d : Dict V) : List Nat → List Key × Bool
       (e.1 :: r.1, r.2)
 
 end TantivyModel.SSTable
+
+namespace TantivyModel.SSTable
+
+/-- the blocks the writer closes, driven by the same state that performs the order checks
+(`cur` = keys of the open block). mirrors: Writer::insert → flush_block_if_required / finish -/
+def writerBlocks (blockLen : Nat) : WState → List Key → List Key → List (List Key)
+  | _, cur, [] => if cur.isEmpty then [] else [cur]
+  | s, cur, k :: ks =>
+    if (s.next blockLen k).blockStart then (cur ++ [k]) :: writerBlocks blockLen (s.next blockLen k) [] ks
+    else writerBlocks blockLen (s.next blockLen k) (cur ++ [k]) ks
+
+end TantivyModel.SSTable
+
+namespace TantivyModel.SSTable
+
+inductive OrdBound where
+  | unbounded
+  | incl (o : Nat)
+  | excl (o : Nat)
+  deriving DecidableEq, Repr
+
+def OrdBound.lo : OrdBound → Nat → Bool
+  | .unbounded, _ => true
+  | .incl o, i => decide (o ≤ i)
+  | .excl o, i => decide (o < i)
+
+def OrdBound.hi : OrdBound → Nat → Bool
+  | .unbounded, _ => true
+  | .incl o, i => decide (i ≤ o)
+  | .excl o, i => decide (i < o)
+
+/-- mirrors: Dictionary::term_bounds_to_ord (+ common::bounds::transform_bound_inner_res): an exact
+hit keeps the bound kind; a miss becomes `Included(next)` for the lower and `Excluded(next)` for
+the upper bound -/
+def Dict.termBoundsToOrd {V} (d : Dict V) (lo hi : Bound) : OrdBound × OrdBound :=
+  ((match lo with
+    | .unbounded => .unbounded
+    | .incl k => (match d.termOrdOrNext k with | .exact o => .incl o | .next o => .incl o)
+    | .excl k => (match d.termOrdOrNext k with | .exact o => .excl o | .next o => .incl o)),
+   (match hi with
+    | .unbounded => .unbounded
+    | .incl k => (match d.termOrdOrNext k with | .exact o => .incl o | .next o => .excl o)
+    | .excl k => (match d.termOrdOrNext k with | .exact o => .excl o | .next o => .excl o)))
+
+end TantivyModel.SSTable
